@@ -234,16 +234,108 @@ def translate_http(repo_src):
     return coerce, http_block(body[1:], exc, True)
 
 
+REGEX = {r"\b([0-9A-Z]{5})\b": "SBoundary", r"\[([0-9A-Z]{5})\]": "SBracketed"}
+EXTRACT_BODY = ["for arg in args:\n    if isinstance(arg, str):\n        match = _SQLSTATE_RE.search(arg)\n        if match:\n"
+                "            return match.group(1)", "return None"]
+
+
+def codepoints(text):
+    return "[" + "; ".join(str(ord(c)) for c in text) + "]"
+
+
+def sql_cond(n, none_cond):
+    """conditions of the SQLSTATE classifiers over `sqlstate` / `code`"""
+    if isinstance(n, ast.BoolOp) and isinstance(n.op, ast.Or) and len(n.values) == 2:
+        return f"(COr {sql_cond(n.values[0], none_cond)} {sql_cond(n.values[1], none_cond)})"
+    if isinstance(n, ast.Compare) and len(n.ops) == 1 and isinstance(n.comparators[0], ast.Constant) and n.comparators[0].value is None:
+        if is_name(n.left, "sqlstate") and isinstance(n.ops[0], ast.Is):
+            return "CSqlIsNone"
+        if is_name(n.left, "code") and isinstance(n.ops[0], ast.IsNot) and none_cond is not None:
+            return f"(CNot {none_cond})"
+    if (isinstance(n, ast.Compare) and is_name(n.left, "code") and len(n.ops) == 1 and isinstance(n.ops[0], ast.In)
+            and isinstance(n.comparators[0], (ast.Set, ast.Tuple, ast.List))
+            and all(isinstance(e, ast.Constant) and isinstance(e.value, str) for e in n.comparators[0].elts)):
+        return "(CTextIn [" + "; ".join(codepoints(e.value) for e in n.comparators[0].elts) + "])"
+    if (isinstance(n, ast.Call) and isinstance(n.func, ast.Attribute) and n.func.attr == "startswith" and is_name(n.func.value, "code")
+            and len(n.args) == 1 and isinstance(n.args[0], ast.Constant) and isinstance(n.args[0].value, str) and not n.keywords):
+        return f"(CTextStarts {codepoints(n.args[0].value)})"
+    raise TranslationError(f"SQLSTATE condition {ast.unparse(n)}")
+
+
+def sql_block(stmts, exc, top, none_cond):
+    if not stmts:
+        if top:
+            raise TranslationError("classifier does not end with a return")
+        return "CFall"
+    s, rest = stmts[0], stmts[1:]
+    if isinstance(s, ast.Expr) and isinstance(s.value, ast.Constant) and isinstance(s.value.value, str):
+        return sql_block(rest, exc, top, none_cond)
+    if isinstance(s, ast.Return) and s.value is not None:
+        if rest:
+            raise TranslationError("statements after return")
+        return http_ret(s.value, exc)
+    if isinstance(s, ast.If) and not s.orelse:
+        return f"(CIf {sql_cond(s.test, none_cond)} {sql_block(s.body, exc, False, none_cond)} {sql_block(rest, exc, top, none_cond)})"
+    if isinstance(s, ast.Try) and not s.orelse and not s.finalbody and len(s.handlers) == 1 and ast.unparse(s.handlers[0].type) == "ValueError" \
+            and s.handlers[0].name is None and len(s.body) == 1:
+        body, handler = ast.unparse(s.body[0]), [ast.unparse(x) for x in s.handlers[0].body]
+        if body == "code = str(sqlstate)" and len(s.handlers[0].body) == 1 and isinstance(s.handlers[0].body[0], ast.Return):
+            # str() refused: the handler returns; otherwise code is the text
+            return f"(CIf CStrRefused {http_ret(s.handlers[0].body[0].value, exc)} {sql_block(rest, exc, top, none_cond)})"
+        if body == "code = str(sqlstate) if sqlstate is not None else None" and handler == ["code = None"]:
+            # code is None exactly when sqlstate is None or str() was refused
+            return sql_block(rest, exc, top, "(COr CSqlIsNone CStrRefused)")
+        raise TranslationError(f"try shape: {body} / {handler}")
+    raise TranslationError(f"classifier statement {ast.unparse(s)[:80]}")
+
+
+def translate_sql(repo_src, module, fname):
+    path = os.path.join(repo_src, "redress", "extras", module + ".py")
+    tree = ast.parse(open(path).read(), filename=path)
+    funcs = {n.name: n for n in tree.body if isinstance(n, ast.FunctionDef)}
+    regs = [n for n in tree.body if isinstance(n, ast.Assign) and len(n.targets) == 1 and is_name(n.targets[0], "_SQLSTATE_RE")]
+    if len(regs) != 1 or not (isinstance(regs[0].value, ast.Call) and ast.unparse(regs[0].value.func) == "re.compile"
+                              and len(regs[0].value.args) == 1 and isinstance(regs[0].value.args[0], ast.Constant)
+                              and not regs[0].value.keywords):
+        raise TranslationError(f"{module}: _SQLSTATE_RE")
+    pat = regs[0].value.args[0].value
+    if pat not in REGEX:
+        raise TranslationError(f"{module}: regular expression {pat!r}")
+    if "_extract_sqlstate" not in funcs or fname not in funcs:
+        raise TranslationError(f"{module}: functions")
+    ex = funcs["_extract_sqlstate"]
+    body = [ast.unparse(x) for x in ex.body if not (isinstance(x, ast.Expr) and isinstance(x.value, ast.Constant))]
+    if body != EXTRACT_BODY or [a.arg for a in ex.args.args] != ["args"]:
+        raise TranslationError(f"{module}: _extract_sqlstate {body}")
+    for n in ast.walk(tree):
+        if isinstance(n, ast.Name) and isinstance(n.ctx, ast.Store) and n.id in ("default_classifier", "_extract_sqlstate", "isinstance", "getattr", "str", "re"):
+            raise TranslationError(f"{module}: {n.id} is rebound")
+    if sum(1 for n in ast.walk(tree) if isinstance(n, ast.Name) and isinstance(n.ctx, ast.Store) and n.id == "_SQLSTATE_RE") != 1:
+        raise TranslationError(f"{module}: _SQLSTATE_RE assigned more than once")
+    f = funcs[fname]
+    exc = f.args.args[0].arg
+    if f.decorator_list or len(f.args.args) != 1 or f.args.kwonlyargs or f.args.vararg or f.args.kwarg:
+        raise TranslationError(f"{fname}: signature")
+    stmts = [s for s in f.body if not (isinstance(s, ast.Expr) and isinstance(s.value, ast.Constant))]
+    want = f"sqlstate = getattr({exc}, 'sqlstate', None) or _extract_sqlstate(getattr({exc}, 'args', ()))"
+    if not (stmts and ast.unparse(stmts[0]) == want):
+        raise TranslationError(f"{fname}: first statement")
+    return f"(CBindSql {REGEX[pat]} {sql_block(stmts[1:], exc, True, None)})"
+
+
 def generate(repo_src, out_path, template_path):
     prog, dflag, sflag = translate(repo_src)
     coerce, http = translate_http(repo_src)
+    sql = translate_sql(repo_src, "sqlstate", "sqlstate_classifier")
+    odbc = translate_sql(repo_src, "pyodbc", "pyodbc_classifier")
     b = lambda x: "true" if x else "false"
     lines = ["(* generated by harness/pyir_classify.py from the current source of redress/classify.py; do not edit *)",
              "From Redress Require Import Base Classify ClassifyProofs PyIRC.", "From Coq Require Import Lia.", "",
              f"Definition classify_ir : cprog :=\n  {prog}.",
              f"Definition default_heur : bool := {b(dflag)}.", f"Definition strict_heur : bool := {b(sflag)}.",
              f"Definition coerce_ir : vprog :=\n  {coerce}.",
-             f"Definition http_ir : cprog :=\n  (CBindStatus coerce_ir {http}).", "",
+             f"Definition http_ir : cprog :=\n  (CBindStatus coerce_ir {http}).",
+             f"Definition sqlstate_ir : cprog :=\n  {sql}.", f"Definition pyodbc_ir : cprog :=\n  {odbc}.", "",
              open(template_path).read()]
     os.makedirs(os.path.dirname(out_path), exist_ok=True)
     with open(out_path, "w") as f:
